@@ -214,6 +214,7 @@ func c19Run(c *Ctx, gen string, idx int, k c19Case) bool {
 						conn.SupportsCapability(names[n%len(names)])
 					}
 					if n%64 == 0 {
+						rig.CallTick()
 						runtimeGosched()
 					}
 				}
